@@ -71,6 +71,11 @@ func genDerive(r *KRng, client string) *WDerive {
 			d.P = []int64{int64(r.Range(550, 800)), int64(r.Range(200, 330)), 1, int64(r.N(3)), int64(r.N(4))}
 		} else {
 			d.P = []int64{0, int64(r.Range(20, 200)), 0, int64(r.N(3)), int64(r.N(4))}
+			if r.P(0.45) {
+				// a ClientHello that fills the one planned datagram to the brim, give or take: the flight either just fits
+				// or is rejected before anything is sent
+				d.PadCH = r.Range(560, 960)
+			}
 		}
 		return d // a planned flight fixes the layout: keep the rest of the spec as it is
 	}
@@ -359,8 +364,8 @@ func runDial(t *testing.T, ksc KScenario, res *KResult) {
 			feasible := d == nil || !multi || d.Builder == "random" || d.Builder == "multi" || d.Builder == "flight" || d.Builder == "rflight" || len(d.Plans) > 0 ||
 				((d.Builder == "" || d.Builder == "keep") && strings.HasPrefix(sc.Cfg.Client, "chrome"))
 			nothingSent := len(w.Log[0]) == sentBefore
-			if feasible && nothingSent && cp.err != nil && strings.Contains(cp.err.Error(), "does not fit the packet buffer") {
-				feasible = false
+			if feasible && nothingSent && cp.err != nil && (strings.Contains(cp.err.Error(), "does not fit the packet buffer") || strings.Contains(cp.err.Error(), "BuildFlight")) {
+				feasible = false // rejected before anything was sent: the layout cannot carry this ClientHello
 			}
 			var te *quic.TransportError
 			packerError := errors.As(cp.err, &te) && !te.Remote && te.ErrorCode == 1 && strings.Contains(te.ErrorMessage, "QUICFrames:")
@@ -526,7 +531,7 @@ func checkInitialFlight(w *World, n *Nodes, sc *DialScenario, di int, cp *dialCa
 			longer := d != nil && (strings.HasPrefix(d.Token, "len:") || strings.HasPrefix(d.Token, "prefix:") || d.DstCIDLen > 8 || d.SrcCIDLen > 0)
 			severalDatagrams := strings.HasPrefix(sc.Cfg.Client, "chrome146") || (d != nil && d.PadCH > 0)
 			switch {
-			case severalDatagrams && (d == nil || d.Builder != "nil"):
+			case severalDatagrams && (d == nil || (d.Builder != "nil" && d.Builder != "flight" && d.Builder != "rflight")):
 				fam = "ClientHello spanning several datagrams: the frame builder adds to a datagram the packer has already filled"
 			case longer:
 				fam = "fixed total frame length plus a header longer than the built-in one: token or connection IDs"
